@@ -202,3 +202,25 @@ def c17(c):
         exhaustive=False,
         exhaustive_subspaces=["all values of every 8- and 16-bit index type for every holder and location"],
         assumptions=["ILP32 model backend; guest layout from independently declared fixed-width structs"]))
+
+
+# --------------------------------------------------------------------- C15
+@plan("C15")
+def c15(c):
+    units = [dict(name="c15_tokens", srcs=[D + "c15_apptokens.cpp"], build="asan", defs=EXC + ["RLBOX_USE_STATIC_CALLS()=rlbox_noop_sandbox_lookup_symbol"],
+                  flags=["-fno-access-control"])]
+    ns = 8 if not c.thorough else c.ncpu - 1
+    runs = sliced("c15_tokens", ns, label="c15_map8", args=[0])
+    runs.append(dict(unit="c15_tokens", label="c15_owners", args=[1]))
+    return dict(units=units, runs=runs, evidence=dict(
+        level="exploration",
+        rule="Part A: breadth-first exploration of ALL reachable states of app_pointer_map<uint8_t> for every limit 1..12 (quick) / 1..16 (thorough) "
+             "over {register, release(t) for every live t}, each transition checked against a reference map (token non-zero, <= limit, not live; "
+             "full table aborts; lookups of live tokens exact; released token aborts); state = (live set, cursor), the cursor is read (never "
+             "written) only to identify states. Limits 17..254: fill/abort/release-every-kth/refill/cursor-wrap histories plus random histories. "
+             "Part B: random histories through rlbox_sandbox::get_app_pointer on the ILP32 model (4 KiB region, limit 4095, filled completely) "
+             "and noop backends with six owner objects being registered, moved, move-assigned onto empty and live owners, unregistered, destroyed. "
+             "distinct_nontrivial = explored states + directed limits + distinct owner histories.",
+        exhaustive=False,
+        exhaustive_subspaces=["complete reachable state space of the 8-bit token table for each limit 1..12 (quick) / 1..16 (thorough)"],
+        assumptions=["-fno-access-control is used in this one TU to read the private cursor for state identification only"]))
